@@ -553,11 +553,13 @@ func c07Oracle(res *Result, w *C07W, h *H1, plugs []*Plug, outs []*c07Out, fired
 					// since, that may still lie ahead. A killed connection is dead at once.
 					rushed = w.Reqs[j].Rush && diedOf[k] == "stop"
 				}
-				if rushed {
+				if rushed && diedOf[k] != "hang" {
 					// its loss may not have happened / been noticed yet: either outcome, and it may
 					// still be entered
 					status[k], noEntry[k] = stMaybe, false
 				}
+				// (a plugin that timed out was dropped by the runtime itself before that request returned:
+				// however soon the next request follows, it gets nothing more)
 			} else if unsure[k] {
 				status[k] = stMaybe
 			}
@@ -778,6 +780,7 @@ func c07Oracle(res *Result, w *C07W, h *H1, plugs []*Plug, outs []*c07Out, fired
 			case f.Kind == "hang":
 				dead[f.Victim] = invoked[w.Plugins[f.Victim].Name] > 0 || dead[f.Victim]
 				diedAt[f.Victim] = i
+				diedOf[f.Victim] = "hang"
 			case f.Kind == "error":
 				if f.CloseAfter && didFire {
 					dead[f.Victim] = true
@@ -885,7 +888,7 @@ func init() {
 			}
 			return []Conf{{Name: "grid", Grid: c07GridOffsets * 2 * c07GridVictims}, {Name: "faults", Weight: 5}, {Name: "healthy", Weight: 1}}
 		},
-		Strategies: []string{"uniform", "uniform", "pct", "starve"},
+		Strategies: []string{"uniform", "uniform", "pct", "starve", "lag"},
 		Components: h1Components,
 		Rule: "grid: for request type x victim position (3 plugins) x direction, a cut after every byte offset 0..259 of the victim's connection counted from the start of the request, status of every plugin derived exactly from the healthy transcript of the same deterministic schedule; " +
 			"faults: 1-5 plugins, 1-5 sequential requests of 8 types, each with an optional fault (handler hang / handler error / stub stop / peer death / reset / cut after n bytes in either direction / injected frame) before or during the request at a scheduler-chosen moment; " +
